@@ -6,6 +6,7 @@ CONSTANTS
   IWS = @IWS@
   HWRITES = @HWRITES@
   MaxSteps = @STEPS@
+  MaxNoise = @NOISE@
 INIT GInit
 NEXT GNext
 INVARIANTS Emit
